@@ -33,6 +33,7 @@ def lower(run, work):
     ll = os.path.join(work, run.name + '.ll')
     flags = ['-std=' + run.std] + IRFLAGS + (['-fexceptions'] if run.exc else ['-fno-exceptions']) + defs(run.defines)
     flags = [f for f in flags if not (run.opt and f == '-O1')] + (['-' + run.opt] if run.opt else [])
+    if run.shared_points: flags.append('-gline-tables-only')   # line tables tell library code from harness bookkeeping
     r = sh([CLANG] + flags + [src, '-o', ll])
     if r.returncode != 0:
         raise RuntimeError('lowering failed for %s:\n%s' % (run.name, r.stderr[-3000:]))
